@@ -329,8 +329,14 @@ func (r *TaskRunner) checkTaskCondition(t *task.Task) (bool, error) {
 		return false, err
 	}
 
-	_, err = exec.Execute(context.Background(), job)
+	// the condition is a running command like any other: Cancel terminates it
+	_, err = exec.Execute(r.ctx, job)
 	if err != nil {
+		// a condition that was cut short decides nothing; the run was interrupted
+		if cerr := r.ctx.Err(); cerr != nil {
+			return false, cerr
+		}
+
 		if _, ok := executor.IsExitStatus(err); ok {
 			return false, nil
 		}
